@@ -13,8 +13,9 @@ EXTENDS Naturals, Sequences, FiniteSets, TLC
 CONSTANTS NSent,      \* frames the honest peer sent in the attacked direction (counters 0..NSent-1)
           MaxWire,    \* length bound of the stream the adversary delivers
           Weak
-VARIABLES wire, pos, rcvCtr, released, err, firstBad
-vars == <<wire, pos, rcvCtr, released, err, firstBad>>
+VARIABLES wire, pos, rcvCtr, released, err, firstBad,
+          pending      \* frames opened by the call in progress, not yet handed to the caller (a call reads on after a full frame)
+vars == <<wire, pos, rcvCtr, released, err, firstBad, pending>>
 Guard(g) == g \notin Weak
 
 \* a wire item: which observed frame it is a copy of, and how it was altered
@@ -22,12 +23,13 @@ Guard(g) == g \notin Weak
 \*   dir : "fwd" | "rev"      (rev = the receiver's own outgoing direction, reflected back)
 \*   idx : 1..NSent           (frame number = counter + 1)
 \*   alt : "none" | "len" | "ct" | "tag" | "cut" | "zero"
-\*         (cut = the stream ends inside this frame; zero = a forged frame in its place: length 0 and an arbitrary tag)
+\*         (cut = the delivery ends inside this frame; zero = a forged frame in its place: length 0 and an arbitrary tag)
+\*         After a cut the adversary may go on delivering (the items that follow it on the wire arrive in a later call).
 Items == [sess : {"this", "other"}, dir : {"fwd", "rev"}, idx : 1..NSent, alt : {"none", "len", "ct", "tag", "cut", "zero"}]
 Genuine(it, k) == it.sess = "this" /\ it.dir = "fwd" /\ it.idx = k /\ it.alt = "none"
 
 Init == /\ wire \in UNION {[1..n -> Items] : n \in 0..MaxWire}
-        /\ pos = 1 /\ rcvCtr = 0 /\ released = <<>> /\ err = FALSE
+        /\ pos = 1 /\ rcvCtr = 0 /\ released = <<>> /\ err = FALSE /\ pending = <<>>
         /\ firstBad = 0          \* ghost: first wire position that is not the next genuine frame
 
 \* does the AEAD open succeed for this item with the receiver's current counter?
@@ -37,21 +39,30 @@ Opens(it) ==
   /\ it.dir = "fwd" \/ ~Guard("keys_differ_per_direction")
   /\ it.idx = rcvCtr + 1 \/ ~Guard("nonce_is_counter")
 
+\* an error is final (guard error_is_final): whatever failed - the tag, or a frame that never completed - the receiver has
+\* consumed input and advanced its counter, so nothing that arrives later can be told from a forgery any more
 Receive ==
-  /\ ~err /\ pos <= Len(wire)
+  /\ (~err \/ ~Guard("error_is_final")) /\ pos <= Len(wire)
   /\ LET it == wire[pos] IN
-     /\ firstBad' = IF firstBad = 0 /\ ~Genuine(it, Len(released) + 1) THEN pos ELSE firstBad
+     /\ firstBad' = IF firstBad = 0 /\ ~Genuine(it, Len(released) + Len(pending) + 1) THEN pos ELSE firstBad
      /\ IF Opens(it)
-        THEN /\ released' = Append(released, it)
+        THEN /\ pending' = Append(pending, it) /\ UNCHANGED released
              /\ rcvCtr' = IF Guard("counter_incremented") THEN rcvCtr + 1 ELSE rcvCtr
-             /\ err' = FALSE
-        ELSE /\ err' = TRUE /\ UNCHANGED <<released, rcvCtr>>
+             /\ err' = err
+        ELSE /\ err' = TRUE /\ UNCHANGED released
+             /\ pending' = <<>>                    \* the failed call hands nothing over, not even the frames it had opened
+             \* the counter is advanced before the tag is looked at; a frame that never completes does not get that far
+             /\ rcvCtr' = IF it.alt = "cut" \/ Guard("error_is_final") THEN rcvCtr ELSE rcvCtr + 1
      /\ pos' = pos + 1
   /\ UNCHANGED wire
-Next == Receive
+\* the call returns what it opened (after a frame that is not full, or at the end of the input)
+HandOver == /\ pending # <<>> /\ released' = released \o pending /\ pending' = <<>>
+            /\ UNCHANGED <<wire, pos, rcvCtr, err, firstBad>>
+Next == Receive \/ HandOver
 Spec == Init /\ [][Next]_vars
 
 \* ---- C05
 PrefixRule == \A i \in 1..Len(released) : Genuine(released[i], i)
 DetectRule == (firstBad # 0 /\ pos > firstBad) => err        \* an error no later than the first altered frame
+\* (err is sticky: with the guard error_is_final missing the receiver goes on after an error, and PrefixRule is what breaks)
 =======================================================================
